@@ -122,7 +122,7 @@ func preBlock(fw *formatWriter, source []byte, cursor *commonmark.Cursor) (child
 		fw.s("[")
 		fw.s(curr.Child(0).Inline().LinkReference())
 		fw.s("]: ")
-		fw.s(commonmark.NormalizeURI(curr.Child(1).Inline().Text(source)))
+		fw.s(escapeDestination(curr.Child(1).Inline().Text(source)))
 		if curr.ChildCount() > 2 {
 			fw.s(` "`)
 			fw.s(escapeTitle(curr.Child(2).Inline().Text(source)))
@@ -263,7 +263,7 @@ func postInline(fw *formatWriter, source []byte, cursor *commonmark.Cursor) {
 			fw.s("(")
 			title := child.LinkTitle()
 			if dst := child.LinkDestination(); dst != nil {
-				fw.s(commonmark.NormalizeURI(dst.Text(source)))
+				fw.s(escapeDestination(dst.Text(source)))
 				if title != nil {
 					fw.s(" ")
 				}
@@ -277,6 +277,23 @@ func postInline(fw *formatWriter, source []byte, cursor *commonmark.Cursor) {
 		}
 	}
 }
+
+// escapeDestination returns the Markdown for a link destination
+// with the given text.
+func escapeDestination(dst string) string {
+	if dst == "" {
+		return "<>"
+	}
+	return destinationEscaper.Replace(commonmark.NormalizeURI(dst))
+}
+
+// [commonmark.NormalizeURI] leaves these characters alone,
+// but they are special in a destination that is not in angle brackets.
+var destinationEscaper = strings.NewReplacer(
+	"(", `\(`,
+	")", `\)`,
+	"&", "&amp;",
+)
 
 // escapeTitle escapes the text of a link title
 // for use between double quotes.
